@@ -46,7 +46,7 @@ def build(read):
         "// GENERATED on every run by /verif/verus/range_read.py from /repo's working tree - do not edit",
         parts.HEADER.replace("use std::collections::HashSet;\n", ""), parts.OPAQUE_SCOPES,
         err_text, parts.ast_text(b, read), parts.value_items(b, read), MODEL,
-        parts.value_ctors(b, read, ["new_val_ref_with_no_source", "new_str", "new_list"]),
+        parts.value_ctors(b, read, ["new_val_ref_with_no_source", "new_val_ref_with_source", "new_null", "new_bool", "new_int", "new_str", "new_list", "new_object"]),
         "// ---- functions under contract (verbatim bodies; contract text inserted at anchors)",
         f1, f2, parts.FOOTER,
     ])
